@@ -148,6 +148,20 @@ def structural_faults(msg, rng, enums):
             if p1 == (0,) or k1 == "IR":
                 continue
             out.append(("dup-uuid:%s=%s" % (k1, k2), put(msg, p1, get(msg, p2)), "DeserializationError"))
+        # the same UUID on two SIBLINGS (two blocks of one interval, two intervals of one section, two sections / symbols / proxies
+        # of one module, two modules): decoded back to back inside one bulk operation
+        sib = []
+        for a in range(len(sites)):
+            for b in range(a + 1, len(sites)):
+                (k1, p1), (k2, p2) = sites[a], sites[b]
+                if len(p1) == len(p2) and sum(1 for x, y in zip(p1, p2) if x != y) == 1 and k1 != "IR":
+                    same_coll = all(x == y for x, y in zip(p1[:-3], p2[:-3])) if len(p1) > 3 else True
+                    if same_coll:
+                        sib.append((k1, p1, k2, p2))
+        rng.shuffle(sib)
+        blocks_first = sorted(sib, key=lambda t: 0 if "Block" in t[0] and "Block" in t[2] else 1)
+        for (k1, p1, k2, p2) in blocks_first[:6]:
+            out.append(("dup-sibling:%s=%s" % (k2, k1), put(msg, p2, get(msg, p1)), "DeserializationError"))
         # one UUID on THREE nodes (a same-class pair plus a third of any class, in decode order)
         if len(sites) >= 3:
             for _ in range(3):
